@@ -76,7 +76,7 @@ def r1_derivations(ctx):
                 rho_now = N * M
             else:
                 ok = rho is not NONE and rho.equals(RHO) and n is not NONE and n.equals(RHO / M)
-                ctx.check(ok, MT, "Matter._norm", f"{cell}: rho stays as given and n = rho/M",
+                ctx.form(ok, MT, "Matter._norm", f"{cell}: rho stays as given and n = rho/M",
                           detail={"n": getattr(n, "key", lambda: None)(), "rho": getattr(rho, "key", lambda: None)()}, expected={"n": "rho/M", "rho": "rho"})
                 rho_now = RHO
             if vol:
@@ -168,7 +168,7 @@ def r2_unit_independence(ctx):
     fn = ctx.fn(MT, "Matter._norm")
     tos = [c for c in ast.walk(fn) if isinstance(c, ast.Call) and isinstance(c.func, ast.Attribute) and c.func.attr == "to"]
     bad = [norm(c) for c in tos if not (len(c.args) == 1 and norm(c.args[0]).startswith("Units."))]
-    ctx.check(bool(tos) and not bad, MT, "Matter._norm", "every conversion names a unit of the materials module", detail=bad or [norm(c) for c in tos])
+    ctx.form(bool(tos) and not bad, MT, "Matter._norm", "every conversion names a unit of the materials module", detail=bad or [norm(c) for c in tos])
     want = {"self.mass_density": "Units.MASS_DENSITY", "self.number_density": "Units.NUMBER_DENSITY", "self.mass": "Units.MATERIAL_MASS"}
     for c in tos:
         pass
